@@ -207,6 +207,16 @@ def run(run):
                 if c[0] == "or" and pol:
                     req.append(("or", fmt(c), None, pol))
                     return
+                if is_call(c, ("insert", "contains", "contains_key")) and len(c[2]) >= 2:
+                    # a de-duplication of the reported functions: harmless iff keyed by the function's identity (tid)
+                    keyt = c[2][1]
+                    by_tid = any(isinstance(y, tuple) and y and y[0] == "field" and y[2] == "tid" for y in S.subterms(keyt))
+                    by_name = any(isinstance(y, tuple) and y and y[0] == "field" and y[2] == "name" for y in S.subterms(keyt))
+                    if by_name and not by_tid:
+                        req.append(("dedup-by-name", fmt(c), None, pol))
+                        return
+                    if by_tid:
+                        return
                 # a call-set test hidden in a closure (any/all/filter over other functions)?
                 foreign = False
                 for y in S.subterms(c):
@@ -226,9 +236,9 @@ def run(run):
                     atoms2(sy.ev(cd[1], env), cd[2])
             calls = [r for r in req if r[0] == "calls"]
             unknown = [r for r in req if r[0] == "?"]
-            wrong = [r for r in req if r[0] in ("or", "foreign-calls")]
+            wrong = [r for r in req if r[0] in ("or", "foreign-calls", "dedup-by-name")]
             if wrong:
-                run.violated("R2", "cwe426|decision", "CWE426 must report a function exactly when that same function calls system AND a privilege-changing function; found %s" % [(r[0], r[1][:120]) for r in wrong], F.loc(n))
+                run.violated("R2", "cwe426|decision", "CWE426 must report EACH function that calls system AND a privilege-changing function (the same function for both); found %s%s" % ([(r[0], r[1][:120]) for r in wrong], " - distinct functions may share a name (static helpers of different compilation units); de-duplicating by name drops all but one of them" if any(r[0] == "dedup-by-name" for r in wrong) else ""), F.loc(n))
             elif unknown:
                 run.undecided("R2", "cwe426|decision", "condition outside vocabulary: %s" % unknown, site)
             else:
